@@ -45,6 +45,8 @@ VARIABLES
                 \* lasts until the node is re-executed
     spSeen,     \* projections that were stale-by-KF_PBP at some point of this epoch
     kfFw,       \* firewalls implicated in a KF_TFC root in this epoch
+    mustCut,    \* nodes that the engine's own cycle search saw on the dependency cycle
+                \* being closed: their executor run in progress must end cut short
     lagFw,      \* firewalls implicated in a KF_TFC_LAG root in this epoch
     ranAt,      \* node -> index of the event of its last complete run
     verAt,      \* node -> index of the event where it was last handed out
@@ -60,7 +62,7 @@ VARIABLES
 
 obsVars == <<prog, inputs, pend, insess, refreshing, world, sample, pendSample,
              epoch, live, snap, lastRun, ran, running, tainted, outLast, outPrev,
-             kfTaint, nested, topDone, bpSkip, spSeen, kfFw, kfHard, lagFw, ranAt, verAt, histIn, crashed,
+             kfTaint, nested, topDone, bpSkip, spSeen, kfFw, kfHard, mustCut, lagFw, ranAt, verAt, histIn, crashed,
              armed, fired,
              viol, stats>>
 
@@ -99,6 +101,7 @@ InitFor(p) ==
     /\ kfFw = {}
     /\ kfHard = [n \in 1..Len(p.nodes) |-> ""]
     /\ lagFw = {}
+    /\ mustCut = {}
     /\ ranAt = [n \in 1..Len(p.nodes) |-> 0]
     /\ verAt = [n \in 1..Len(p.nodes) |-> 0]
     /\ histIn = <<>>
@@ -238,7 +241,7 @@ Bump(f) == [stats EXCEPT ![f] = @ + 1]
 sessVars == <<inputs, pend, insess, refreshing, sample, pendSample, epoch>>
 rdrVars  == <<live, snap>>
 runVars  == <<lastRun, ran, running, tainted, outLast, outPrev>>
-kfVars   == <<kfTaint, nested, topDone, bpSkip, spSeen, kfFw, kfHard, lagFw, ranAt, verAt>>
+kfVars   == <<kfTaint, nested, topDone, bpSkip, spSeen, kfFw, kfHard, mustCut, lagFw, ranAt, verAt>>
 crVars   == <<histIn, crashed, armed, fired>>
 
 Begin(idx) ==
@@ -305,7 +308,7 @@ Commit(idx) ==
                  ELSE Append(histIn, [n \in Ids |-> IF pend[n] # None THEN pend[n] ELSE inputs[n]])
     /\ crashed' = crashed
     /\ UNCHANGED <<prog, world, rdrVars, lastRun, running, tainted, outLast, outPrev,
-                   nested, topDone, bpSkip, kfHard, ranAt, verAt, armed, fired>>
+                   nested, topDone, bpSkip, kfHard, mustCut, ranAt, verAt, armed, fired>>
 
 Tracked(idx, t) ==
     /\ live' = live \cup {t}
@@ -339,7 +342,7 @@ Query(idx, t, n, v) ==
     /\ spSeen' = spSeen \cup StaleProj(ran, lastRun, outLast, bpSkip')
     /\ verAt' = [verAt EXCEPT ![n] = idx]
     /\ lagFw' = IF v # ValAt(t)[n] /\ KfTfcLag(n, ValNow) THEN lagFw \cup LagFirewalls(n, ValNow) ELSE lagFw
-    /\ UNCHANGED <<prog, sessVars, world, rdrVars, runVars, nested, kfFw, kfHard, ranAt, crVars>>
+    /\ UNCHANGED <<prog, sessVars, world, rdrVars, runVars, nested, kfFw, kfHard, mustCut, ranAt, crVars>>
 
 (* C02: one query key is never executed by two executors at once.          *)
 Enter(idx, n) ==
@@ -347,7 +350,7 @@ Enter(idx, n) ==
     /\ viol' = IF n \in running THEN Append(viol, V(idx, "overlap", n, 0, 0)) ELSE viol
     /\ nested' = IF running # {} THEN nested \cup {n} ELSE nested \ {n}
     /\ UNCHANGED <<prog, sessVars, world, rdrVars, lastRun, ran, tainted,
-                   outLast, outPrev, kfTaint, topDone, bpSkip, spSeen, kfFw, kfHard, lagFw, ranAt, verAt, stats, crVars>>
+                   outLast, outPrev, kfTaint, topDone, bpSkip, spSeen, kfFw, kfHard, mustCut, lagFw, ranAt, verAt, stats, crVars>>
 
 ReadsOf(n) == lastRun[n].reads
 
@@ -375,7 +378,7 @@ Read(idx, n, d, v) ==
                     THEN kfFw \cup (TransDeps(d) \cap PendingFirewalls(val)) ELSE kfFw
         /\ stats' = Bump("reads")
         /\ verAt' = [verAt EXCEPT ![d] = idx]
-        /\ UNCHANGED <<prog, sessVars, world, rdrVars, runVars, nested, topDone, bpSkip, spSeen, kfHard, lagFw, ranAt, crVars>>
+        /\ UNCHANGED <<prog, sessVars, world, rdrVars, runVars, nested, topDone, bpSkip, spSeen, kfHard, mustCut, lagFw, ranAt, crVars>>
 
 (* A complete executor run of a non-external node.                         *)
 ExecNormal(idx, n, reads, out) ==
@@ -391,7 +394,11 @@ ExecNormal(idx, n, reads, out) ==
         v4  == IF insess THEN Append(v3, V(idx, "exec_during_session", n, 0, 0)) ELSE v3
         v5  == IF BadReads(reads, val) = {} /\ out # Eval(prog, n, val).out
                THEN Append(v4, V(idx, "harness_executor_output", n, out, Eval(prog, n, val).out)) ELSE v4
-    IN  /\ viol' = v5
+        \* C06: the cycle search saw this node on the cycle that was being closed, yet its
+        \* executor run completed and published an ordinary result
+        v6  == IF n \in mustCut THEN Append(v5, V(idx, "cycle_member_completed", n, out, 0)) ELSE v5
+    IN  /\ viol' = v6
+        /\ mustCut' = mustCut \ {n}
         /\ lastRun' = [lastRun EXCEPT ![n] = [has |-> TRUE, reads |-> reads]]
         /\ ran' = ran \cup {n}
         /\ running' = running \ {n}
@@ -439,8 +446,9 @@ ExecCut(idx, n) ==
     /\ lastRun' = [lastRun EXCEPT ![n] = [has |-> FALSE, reads |-> <<>>]]
     /\ stats' = Bump("cyc")
     /\ fired' = (fired \/ n = armed)
-    /\ UNCHANGED <<prog, sessVars, world, rdrVars, ran, outLast, outPrev, kfVars, viol,
-                   histIn, crashed, armed>>
+    /\ mustCut' = mustCut \ {n}
+    /\ UNCHANGED <<prog, sessVars, world, rdrVars, ran, outLast, outPrev, kfTaint, nested, topDone, bpSkip,
+                   spSeen, kfFw, kfHard, lagFw, ranAt, verAt, viol, histIn, crashed, armed>>
 
 (* C07: a clean restart changes nothing observable.                        *)
 Restart(idx) ==
@@ -466,7 +474,7 @@ Crash(idx) ==
     /\ outLast' = NoneFn /\ outPrev' = NoneFn
     /\ kfTaint' = [n \in Ids |-> ""] /\ kfHard' = [n \in Ids |-> ""]
     /\ nested' = {} /\ topDone' = {} /\ bpSkip' = {} /\ spSeen' = {} /\ kfFw' = {}
-    /\ ranAt' = [n \in Ids |-> 0] /\ verAt' = [n \in Ids |-> 0] /\ lagFw' = {}
+    /\ ranAt' = [n \in Ids |-> 0] /\ verAt' = [n \in Ids |-> 0] /\ lagFw' = {} /\ mustCut' = {}
     /\ stats' = Bump("restarts")
     /\ UNCHANGED <<prog, inputs, world, epoch, snap, viol>>
 
@@ -491,6 +499,32 @@ Recovered(idx, obs) ==
                    ELSE Append(viol, V(idx, "recovered_inputs_not_a_committed_state", 0, 0, 0))
         /\ UNCHANGED <<prog, pend, insess, refreshing, world, sample, pendSample, epoch,
                        rdrVars, runVars, kfVars, crVars, stats>>
+
+(* C06: the engine's cycle search (observed through the cfg-guarded hook:   *)
+(* the computing queries reachable from `callee`, each with the callees it  *)
+(* had registered, and the answer).  `target` requesting `callee` closes a  *)
+(* dependency cycle iff `callee` reaches `target` in that graph; the        *)
+(* answer must say so, and then every recorded query that reaches `target`  *)
+(* (and `target` itself) lies on the cycle: its executor run in progress    *)
+(* must be cut short (it evaluates to its cycle default), whatever order    *)
+(* the search visited them in.                                              *)
+CycEdgeFn(edges) == [x \in {edges[i][1] : i \in 1..Len(edges)} |->
+                        LET i == CHOOSE j \in 1..Len(edges) : edges[j][1] = x
+                        IN  {edges[i][2][k] : k \in 1..Len(edges[i][2])}]
+RECURSIVE CycReach(_, _, _)
+CycReach(ef, frontier, seen) ==
+    LET nxt == (UNION {IF x \in DOMAIN ef THEN ef[x] ELSE {} : x \in frontier}) \ seen
+    IN  IF nxt = {} THEN seen ELSE CycReach(ef, nxt, seen \cup nxt)
+CycProbe(idx, callee, target, edges, found) ==
+    LET ef == CycEdgeFn(edges)
+        onPath == {x \in DOMAIN ef : target \in CycReach(ef, {x}, {})}
+        cyc == callee \in onPath
+    IN  /\ viol' = IF found # cyc
+                   THEN Append(viol, V(idx, "cycle_search_wrong_answer", callee, IF found THEN 1 ELSE 0, IF cyc THEN 1 ELSE 0))
+                   ELSE viol
+        /\ mustCut' = IF cyc THEN mustCut \cup onPath \cup {target} ELSE mustCut
+        /\ UNCHANGED <<prog, sessVars, world, rdrVars, runVars, kfTaint, nested, topDone, bpSkip, spSeen, kfFw,
+                       kfHard, lagFw, ranAt, verAt, crVars, stats>>
 
 (* C02/C04/C05/C06: every request completes.                              *)
 Hang(idx) ==
